@@ -310,8 +310,11 @@ func (m *Model) deleteMode(id string, opts ...resource.WriteOption) error {
 		if stored.Id == active.Id {
 			return ErrDeleteActiveMode
 		}
-		if current, ok := m.findMode(active.Id); ok && current.Id == stored.Id {
-			return ErrDeleteActiveMode
+		// (an empty active id is the placeholder of a new model: it names no mode, whatever the interceptor maps "" to)
+		if active.Id != "" {
+			if current, ok := m.findMode(active.Id); ok && current.Id == stored.Id {
+				return ErrDeleteActiveMode
+			}
 		}
 	}
 
